@@ -268,7 +268,7 @@ Start(r, c, p) ==
     /\ res = [hdr |-> p.hdr, conn |-> p.conn]
     /\ seenC = [status |-> 0, hdr |-> NoHdr(RespNames), body |-> 0 - 1, trailers |-> "?"]
 
-ConnShapes(custom) == {<< >>, << <<custom>> >>, << <<"close", custom>> >>, << <<"close">>, <<custom>> >>, << <<"keep-alive">> >>}
+ConnShapes(custom) == {<< >>, << <<custom>> >>, << <<"close", custom>> >>, << <<"close">>, <<custom>> >>, << <<"keep-alive">> >>, << <<"keep-alive">>, <<custom>> >>}
 
 \* (1a) request headers: end-to-end, one hop-by-hop header in every value shape, Connection shapes, prior X-Forwarded-For
 InitHdr == \E acc \in {<< >>, <<"v1">>, <<"v1", "v2">>}, e2e \in {<< >>, <<"">>, <<"v1">>},
